@@ -222,10 +222,18 @@ def scan_call_sites(ctx):
     bench = src("src/smpi/internals/smpi_bench.cpp")
     sites.append(("smpi_bench_begin (return to user code from every MPI call) switches to the calling actor",
                   re.search(r"void smpi_bench_begin\(\)\s*\{\s*smpi_switch_data_segment\(simgrid::s4u::Actor::self\(\)\)", bench) is not None))
+    d = dict(sites)
+    resume = [w for w in d if w.startswith(("ActorImpl::yield", "smpi_bench_begin"))]
+    # hypothesis 'the running rank's segment is mapped before its user code runs again': user code of an SMPI rank only
+    # resumes by returning from an MPI call (smpi_bench_begin) after ActorImpl::yield returned; either switch establishes it
+    if not any(d[w] for w in resume):
+        ctx.mismatch("call-site", "no switch to the resumed rank is left in the current source: " + " / ".join(resume))
+    elif not all(d[w] for w in resume):
+        ctx.notes.append("one of the two redundant switches on the way back to user code is gone: " + "; ".join(w for w in resume if not d[w]))
     for what, ok in sites:
-        if not ok:
+        if not ok and what not in resume:
             ctx.mismatch("call-site", "not found in the current source: " + what)
-    return [w for w, _ in sites]
+    return [w for w, ok in sites if ok]
 
 
 def run_case(ctx, prog, script, idx, work, priv, det0):
